@@ -59,7 +59,7 @@ def identify(identification: Identification) -> Expression:
 
     if district_without_treatment in graph.districts():
         parents = list(graph.topological_sort())
-        expression = Product.safe(p_parents(v, parents) for v in district_without_treatment)
+        expression = Product.safe(p_conditional(v, parents, identification.estimand) for v in district_without_treatment)
         ranges = district_without_treatment - outcomes
         return Sum.safe(
             expression=expression,
@@ -243,7 +243,7 @@ def line_6(identification: Identification) -> Expression:
         raise ValueError("Line 6 precondition not met")
 
     parents = list(graph.topological_sort())
-    expression = Product.safe(p_parents(v, parents) for v in district_without_treatments)
+    expression = Product.safe(p_conditional(v, parents, identification.estimand) for v in district_without_treatments)
     ranges = district_without_treatments - outcomes
     return Sum.safe(
         expression=expression,
@@ -292,11 +292,26 @@ def line_7(identification: Identification) -> Identification:
             return Identification.from_parts(
                 outcomes=outcomes,
                 treatments=treatments & district,
-                estimand=Product.safe(p_parents(v, parents) for v in district),
+                estimand=Product.safe(p_conditional(v, parents, identification.estimand) for v in district),
                 graph=graph.subgraph(district),
             )
 
     raise ValueError("Could not identify suitable district")
+
+
+def _is_marginal_of_joint(expression: Expression) -> bool:
+    """Check if the expression is the observational joint, possibly under sums."""
+    while isinstance(expression, Sum):
+        expression = expression.expression
+    return isinstance(expression, Probability) and not expression.parents
+
+
+def p_conditional(child: Variable, ordering: Sequence[Variable], estimand: Expression) -> Expression:
+    """Get the conditional of the child given its predecessors in the distribution given by the estimand."""
+    if _is_marginal_of_joint(estimand):
+        return p_parents(child, ordering)
+    index = ordering.index(child)
+    return estimand.marginalize(ordering[index + 1 :]) / estimand.marginalize(ordering[index:])
 
 
 def p_parents(child: Variable, ordering: Sequence[Variable]) -> Probability:
